@@ -49,3 +49,7 @@ CORPUS += [
 CORPUS += [
     M("ip-from-payload", D, '            return {"ip": ip, "port": port,', '            return {"ip": str(ip_address), "port": port,'),
 ]
+# round 8 (C18.a): recorded tasks are not cancelled
+CORPUS += [
+    M("connection-lost-cancels-tasks", D, "        self._discovered_ips.add(ip)\n", "        self._discovered_ips.add(ip)\n        for t in self.tasks:\n            t.cancel()\n"),
+]
